@@ -5,7 +5,7 @@ import os
 from .. import core, gen
 from ..core import Rng, mix
 from ..engine import Outcome
-from .base import STD, exec_args, plan_of, not_meta, crashed, classify_diff, exotic_tag, crash_text
+from .base import STD, exec_args, plan_of, not_meta, crashed, classify_diff, exotic_tag, crash_text, split_static_function, K8_SIG, K9_KIND
 
 
 def edit_kind(desc):
@@ -34,6 +34,28 @@ def edit_kind(desc):
     if desc.startswith("swap"):
         return "swap"
     return k
+
+
+K10_SIG = "inline suppression of a unit also applies to a same-named unit in a sub-path (single job only)"
+
+
+def _samename_suppression_leak(oa, ob, units):
+    """Known finding K10: in a single-job run the inline suppressions of unit 'x.c' stay in the shared list with the
+    relative file name 'x.c', which PathMatch also matches against 'dir/x.c'. Workers of a multi-job run only see their own
+    inline suppressions. True iff every difference is a finding in such a deeper unit or an unmatchedSuppression in the
+    shallower one."""
+    pairs = [(a, b) for a in units for b in units if a != b and b.endswith("/" + a)]
+    if not pairs or not (oa or ob):
+        return False
+    deep = set(b for _a, b in pairs); shallow = set(a for a, _b in pairs)
+    for f, _c in list(oa) + list(ob):
+        pf = f.primary_file()
+        if f.id == "unmatchedSuppression" and pf in shallow:
+            continue
+        if f.id != "unmatchedSuppression" and pf in deep:
+            continue
+        return False
+    return True
 
 
 def unit_cache_state(r, units):
@@ -119,12 +141,20 @@ def run_history(scn, wd, out, prop_id, variant="plain", judge_exit=False, wp_onl
             out.probe("cache_hit_runs")
         if ms != mr or not r.xml_ok:
             oa, ob = core.diff_multisets(ms, mr)
-            kind = classify_diff(oa, ob) if r.xml_ok else "malformed-output"
-            sig = "%s after [%s]%s" % (kind, ",".join(sorted(set(since))) or "nothing", exotic_tag(units))
-            det = ["run #%d (%s) vs reference without build dir; changes since previous run: %s" % (si, " ".join(exec_args(run)), since),
-                   "args: " + " ".join(args)] + core.fmt_diff(oa, ob, "cached", "fresh")
-            ids = ",".join(sorted(set(("+" if side == 0 else "-") + k.id for side, lst in enumerate((oa, ob)) for k, _ in lst)))
-            out.violate("findings-differ", sig, det, ids=ids)
+            oa, ob, k8 = split_static_function(oa, ob)
+            head = ["run #%d (%s) vs reference without build dir; changes since previous run: %s" % (si, " ".join(exec_args(run)), since), "args: " + " ".join(args)]
+            if k8:
+                out.violate("findings-differ", K8_SIG, head + ["staticFunction findings of the fresh run are absent"], ids="-staticFunction")
+            if oa or ob or not r.xml_ok:
+                kind = classify_diff(oa, ob, list(mr)) if r.xml_ok else "malformed-output"
+                sig = "%s after [%s]%s" % (kind, ",".join(sorted(set(since))) or "nothing", exotic_tag(units))
+                if r.xml_ok and _samename_suppression_leak(oa, ob, units):
+                    sig = K10_SIG
+                elif kind == K9_KIND:
+                    sig = K9_KIND + " in a partially cached run"
+                det = head + core.fmt_diff(oa, ob, "cached", "fresh")
+                ids = ",".join(sorted(set(("+" if side == 0 else "-") + k.id for side, lst in enumerate((oa, ob)) for k, _ in lst)))
+                out.violate("findings-differ", sig, det, ids=ids)
         elif judge_exit and r.rc != ref.rc:
             out.violate("exit-differs", "rc %d vs %d after [%s]" % (r.rc, ref.rc, ",".join(sorted(set(since)))),
                         ["args: " + " ".join(args)])
